@@ -34,6 +34,24 @@ struct nni_sfd_conn {
 	nni_reap_node reap;
 };
 
+#ifdef NNG_VERIF
+// Short I/O on demand: no read or write system call moves more than
+// nni_verif_io_max bytes (see core/aio.c).
+static int
+sfd_verif_clamp(struct iovec *iov, int niov)
+{
+	size_t left = nni_verif_io_max;
+	int    i;
+	for (i = 0; i < niov && left > 0; i++) {
+		if (iov[i].iov_len > left) {
+			iov[i].iov_len = left;
+		}
+		left -= iov[i].iov_len;
+	}
+	return (i);
+}
+#endif
+
 static void
 sfd_dowrite(nni_sfd_conn *c)
 {
@@ -68,6 +86,9 @@ sfd_dowrite(nni_sfd_conn *c)
 			}
 		}
 
+#ifdef NNG_VERIF
+		niov = sfd_verif_clamp(iovec, niov);
+#endif
 		if ((n = writev(fd, iovec, niov)) < 0) {
 			switch (errno) {
 			case EINTR:
@@ -131,6 +152,9 @@ sfd_doread(nni_sfd_conn *c)
 			}
 		}
 
+#ifdef NNG_VERIF
+		niov = sfd_verif_clamp(iovec, niov);
+#endif
 		if ((n = readv(fd, iovec, niov)) < 0) {
 			switch (errno) {
 			case EINTR:
